@@ -170,10 +170,40 @@ fn same_as_rebuilt(b: &Board) -> String {
     "same".into()
 }
 
+/// successors by the rare moves: every en-passant capture, and a sample of the castlings, promotions, double steps
+/// and other captures, of every position given
+fn special_successors(ps: &[Tagged], rng: &mut Rng, cap: usize) -> Vec<Tagged> {
+    let mut extra: Vec<Tagged> = Vec::new();
+    for t in ps.iter() {
+        let b = t.board;
+        for m in b.legals() {
+            let mover = b.raw().get(m.source).map(|x| x.1);
+            let quiet = b.raw().get(m.dest).is_none();
+            let (sf, df) = (m.source.to_u8() % 8, m.dest.to_u8() % 8);
+            let (sr, dr) = (m.source.to_u8() / 8, m.dest.to_u8() / 8);
+            let is_ep = mover == Some(Piece::Pawn) && quiet && sf != df;
+            let is_castle = mover == Some(Piece::King) && (sf as i32 - df as i32).abs() == 2;
+            let is_double = mover == Some(Piece::Pawn) && (sr as i32 - dr as i32).abs() == 2;
+            let keep = is_ep || ((is_castle || m.piece.is_some() || is_double || !quiet) && extra.len() < cap && rng.chance(1, 3));
+            if keep {
+                if let Some(nb) = b.move_new(m) {
+                    extra.push(Tagged { board: nb, tag: if is_ep { "after-en-passant" } else { "after-special-move" } });
+                }
+            }
+        }
+    }
+    extra
+}
+
 pub fn c03(out: &mut Out, thorough: bool) {
     let n = n_positions(thorough, 8_000, 200_000);
     let mut rng = Rng::new(out.seed ^ 0xC03);
-    let ps = positions(&mut rng, n);
+    let mut ps = positions(&mut rng, n);
+    // the rare moves are where incremental state goes stale: play every en-passant capture, and a sample of the
+    // castlings, promotions, double steps and other captures, from every generated position (the constructed
+    // motifs — sliders and kings on the lines an en-passant capture opens — are only given as positions otherwise)
+    let extra = special_successors(&ps, &mut rng, if thorough { 200_000 } else { 12_000 });
+    ps.extend(extra);
     for t in ps.iter() {
         let b = t.board;
         let v = view(&b);
@@ -245,7 +275,9 @@ fn hash_components(v: &View, z: u64) -> String {
 pub fn c04(out: &mut Out, thorough: bool) {
     let n = n_positions(thorough, 8_000, 200_000);
     let mut rng = Rng::new(out.seed ^ 0xC04);
-    let ps = positions(&mut rng, n);
+    let mut ps = positions(&mut rng, n);
+    let extra = special_successors(&ps, &mut rng, if thorough { 100_000 } else { 5_000 });
+    ps.extend(extra);
     for t in ps.iter() {
         let b = t.board;
         let v = view(&b);
@@ -513,7 +545,7 @@ pub fn c05(out: &mut Out, thorough: bool) {
 
 // ------------------------------------------------------------------------------------------ C06
 
-fn mutate(rng: &mut Rng, fen: &str) -> Vec<u8> {
+pub fn mutate(rng: &mut Rng, fen: &str) -> Vec<u8> {
     let mut fields: Vec<Vec<u8>> = fen.split(' ').map(|s| s.as_bytes().to_vec()).collect();
     let junk: [u8; 16] = [0, 0x7f, 0x80, 0xff, b'/', b' ', b'9', b'0', b'x', b'K', b'k', b'-', b'8', b'1', b'w', b'3'];
     match rng.below(12) {
